@@ -237,57 +237,109 @@ BLOBS = {
 }
 
 
-def blob_layout_problems(repo):
-    """recv_reply's walk over the host key blob, interpreted (sa/listinterp.py) with __get_bytes abstracted to "read the next string field":
-    for each supported key type the recorded key length must be the length of the key field of that type, and for certificates the CA parser
-    must be entered exactly at the serial number (all string fields in front of it consumed).  Returns (cases, [(type, message)])."""
+def blob_layout_problems(repo, consts=None):
+    """KexDH.recv_reply interpreted (sa/listinterp.py) from its first statement on a well-formed reply, with __get_bytes abstracted to "read the next string
+    field" of the reply (host key blob, f, signature) or of the blob: for each supported key type the recorded key length must be the length of the key field
+    of that type, and for certificates the CA parser must be entered exactly at the serial number (all string fields in front of it consumed).  The
+    arguments are the ones HostKeyTest.perform_test passes for that key type (probe model; the real HOST_KEY_TYPES row).  Returns (cases, [(type, message)])."""
+    import binascii
     from sa.listinterp import Interp
     from sa.abseval import Opaque
     from sa.core import call_name
+    from sa.consteval import ConstEnv
     rr = repo.func('kexdh', 'KexDH.recv_reply')
-    start = None
-    for i, st in enumerate(rr.body):
-        if isinstance(st, ast.Assign) and unparse(st.targets[0]) == 'ptr' and isinstance(st.value, ast.Constant) and st.value.value == 0 and i + 1 < len(rr.body) \
-                and 'hostkey_type' in unparse(rr.body[i + 1]) and '__get_bytes(hostkey' in unparse(rr.body[i + 1]):
-            start = i
-    if start is None:
-        raise AnalysisError('recv_reply: start of the host key blob walk (ptr = 0; hostkey_type, ... = __get_bytes(hostkey, ptr)) not found')
+    params = [a.arg for a in rr.args.args]
+    ce = ConstEnv(repo)
+    if consts is None:
+        consts = class_consts(repo, ce, 'hostkeytest', 'HostKeyTest')
+    proto = {}
+    for k, v in class_consts(repo, ce, 'protocol', 'Protocol').items():
+        proto[k] = v
+    if 'Protocol.MSG_KEXDH_REPLY' not in proto:
+        raise AnalysisError('anchor vanished: Protocol.MSG_KEXDH_REPLY')
+    defaults = {}
+    nd = len(rr.args.defaults)
+    for p_, d in zip(params[len(params) - nd:], rr.args.defaults):
+        try:
+            defaults[p_] = ast.literal_eval(d)
+        except (ValueError, SyntaxError):
+            raise AnalysisError('recv_reply: default of %s is not a literal' % p_)
     problems = []
     for ktype, fields in BLOBS.items():
+        # what the probe passes for this key type
+        ev_ = probe(repo, consts, [(ktype, '-cert-' in ktype, 256, '', 0)])
+        mine = [ra for ra in ev_['reply_args'] if ra[0] == ktype]
+        if len(mine) != 1:
+            raise AnalysisError('probe model: %d recv_reply calls for %s' % (len(mine), ktype))
+        bound = dict(defaults)
+        if len(mine[0][1]) > len(params) - 2:
+            raise AnalysisError('recv_reply called with more arguments than it has parameters')
+        bound.update(dict(zip(params[2:], mine[0][1])))
+        bound.update(mine[0][2])
         ca_calls = []
+        HOSTKEY, PAYLOAD = b'<hostkey blob>', b'<reply payload>'
+        outer = [('hostkey', HOSTKEY), ('f', b'<f>'), ('signature', b'<signature>')]
 
         def hook(call, env, interp, fields=fields, ca_calls=ca_calls):
-            nm = call_name(call) or ''
+            nm = call_name(call) or unparse(call.func)
             if nm.endswith('__get_bytes') and len(call.args) == 2:
-                buf = unparse(call.args[0])
+                buf = interp.value(call.args[0], env)
                 ptr = interp.value(call.args[1], env)
-                if buf != 'hostkey' or not isinstance(ptr, int):
-                    raise Unknown('__get_bytes on %s at a non-field position' % buf)
-                if 0 <= ptr < len(fields):
-                    return (True, (fields[ptr][1], len(fields[ptr][1]), ptr + 1))
+                src = outer if buf == PAYLOAD else (fields if buf == HOSTKEY else None)
+                if src is None or not isinstance(ptr, int):
+                    raise Unknown('__get_bytes on %s at a non-field position' % unparse(call.args[0]))
+                if 0 <= ptr < len(src):
+                    return (True, (src[ptr][1], len(src[ptr][1]), ptr + 1))
                 return (True, (Opaque(), Opaque(), ptr + 1))
             if nm.endswith('__parse_ca_key'):
                 ptr = interp.value(call.args[-1], env)
                 ca_calls.append(ptr)
                 return (True, ('<ca type>', 99))
+            if nm.endswith('.read_packet'):
+                return (True, (proto['Protocol.MSG_KEXDH_REPLY'], PAYLOAD))
+            if nm == 'binascii.hexlify' and len(call.args) == 1:
+                v = interp.value(call.args[0], env)
+                if isinstance(v, bytes):
+                    return (True, binascii.hexlify(v))
+            if nm == 'int' and len(call.args) == 2:
+                a_, b_ = [interp.value(x, env) for x in call.args]
+                if isinstance(a_, (bytes, str)) and isinstance(b_, int):
+                    try:
+                        return (True, int(a_, b_))
+                    except ValueError:
+                        raise Unknown('int() of a field that is not a number')
+            if nm.endswith('out.d') or nm.endswith('out.v'):
+                return (True, None)
             return None
-        env = {'self': Opaque(), 'hostkey': Opaque(), 'payload': Opaque(), 'self.__hostkey_n_len': 0, 'self.__ca_key_type': '', 'self.__ca_n_len': 0, 'self.__hostkey_type': ''}
+        env = dict(proto)
+        env.update({params[0]: Opaque(), params[1]: Opaque(), 'self.__hostkey_n_len': 0, 'self.__ca_key_type': '', 'self.__ca_n_len': 0, 'self.__hostkey_type': ''})
+        env.update(bound)
+        missing = [p_ for p_ in params if p_ not in env]
+        if missing:
+            raise AnalysisError('recv_reply: no value for parameter(s) %s in the call perform_test makes' % missing)
         try:
-            finals = Interp(call_hook=hook).run(rr.body[start:], env)
+            finals = Interp(call_hook=hook, try_normal_path=True).run(rr.body, env)
         except Unknown as e:
             raise AnalysisError('recv_reply blob walk not interpretable for %s: %s' % (ktype, e))
         if len(finals) != 1 or finals[0].get('<forks>'):
             raise AnalysisError('recv_reply blob walk for %s depends on a condition the analysis does not model: %s' % (ktype, [f.get('<forks>') for f in finals][:2]))
         fe = finals[0]
+        if fe.get('<crash>') or fe.get('<outcome>') == 'raise':
+            problems.append((ktype, 'a well-formed reply makes recv_reply raise (%s)' % (fe.get('<crash>') or 'explicit raise')))
+            continue
+        if fe.get('<return>') != HOSTKEY:
+            problems.append((ktype, 'recv_reply returns %r, not the host key blob of the reply (the fingerprints are computed from it)' % (fe.get('<return>'),)))
         keyfield = [f for f in fields if f[0] in ('n', 'pk')][0]
-        got_len = fe.get('self.__hostkey_n_len')
-        if got_len != len(keyfield[1]):
-            problems.append((ktype, 'the recorded key length is %r bytes, the %s field of a %s blob has %d' % (got_len, keyfield[0], ktype, len(keyfield[1]))))
         is_cert = '-cert-' in ktype
+        fixed = not (consts.get('HostKeyTest.HOST_KEY_TYPES', {}).get(ktype, {}) or {}).get('variable_key_len', True)
+        got_len = fe.get('self.__hostkey_n_len')
+        # a plain fixed-size key (Ed25519 / Ed448) needs no measured length: its report carries no size and its rating none; everything else does
+        if got_len != len(keyfield[1]) and not (fixed and not is_cert and got_len == 0):
+            problems.append((ktype, 'the recorded key length is %r bytes, the %s field of a %s blob has %d' % (got_len, keyfield[0], ktype, len(keyfield[1]))))
         if is_cert:
             if ca_calls != [len(fields)]:
                 problems.append((ktype, 'the CA parser is entered %s; the serial number follows the %d string fields %s, so the CA type and size %s' % (
-                    ('after %s string field(s)' % ca_calls[0]) if ca_calls else 'never', len(fields), [f[0] for f in fields], 'are read from the wrong bytes (no CA, or garbage, is recorded)' if ca_calls else 'are never recorded')))
+                    ('after %s string field(s)' % ca_calls[0]) if ca_calls else 'never', len(fields), [f[0] for f in fields], 'are read from the wrong bytes (no CA, or garbage, is recorded)' if ca_calls else 'are never recorded for this certificate type')))
             elif fe.get('self.__ca_key_type') != '<ca type>' or fe.get('self.__ca_n_len') != 99:
                 problems.append((ktype, 'the CA type/size returned by the CA parser are not stored in the fields the getters read'))
         elif ca_calls:
@@ -325,12 +377,13 @@ def probe(repo, consts, measurements, offered=None, table=None):
     rsa = list(consts.get('HostKeyTest.RSA_FAMILY', []))
     tbl = table if table is not None else {'key': {t: [['<versions>']] for t in set(types) | set(rsa)}}
     cur = {'i': -1, 'connected': False}
-    events = {'records': [], 'connects': 0, 'closes': 0, 'kexinits': [], 'inits': 0, 'log': []}
+    events = {'records': [], 'connects': 0, 'closes': 0, 'kexinits': [], 'inits': 0, 'log': [], 'reply_args': []}
     by_type = {m[0]: m for m in measurements}
     server_kex = _Tok('<server_kex>', {'key_algorithms': list(offered if offered is not None else types), 'server': _Tok('<server_kex.server>', {'encryption': ['<enc>'], 'mac': ['<mac>'], 'compression': ['none'], 'languages': ['']})})
+    real_rows = consts.get('HostKeyTest.HOST_KEY_TYPES', {}) if isinstance(consts.get('HostKeyTest.HOST_KEY_TYPES'), dict) else {}
     env = dict(consts)
     env.update({'out': Opaque(), 'out.debug': False, 's': Opaque(), 'server_kex': server_kex, 'kex_str': '<kex>', 'kex_group': Opaque(),
-                'host_key_types': {m[0]: {'cert': m[1], 'variable_key_len': False} for m in measurements}})
+                'host_key_types': {m[0]: dict(real_rows.get(m[0], {'variable_key_len': False}), cert=m[1]) for m in measurements}})
     state = {'type': None}
 
     def hook(call, e, interp):
@@ -364,6 +417,7 @@ def probe(repo, consts, measurements, offered=None, table=None):
             events['log'].append('init')
             return (True, None)
         if t == 'kex_group.recv_reply':
+            events['reply_args'].append((state['type'], [interp.value(a, e) for a in call.args[1:]], {k.arg: interp.value(k.value, e) for k in call.keywords if k.arg}))
             return (True, b'<blob of %s>' % (state['type'] or '?').encode())
         if t in ('kex_group.get_hostkey_size', 'kex_group.get_ca_type', 'kex_group.get_ca_size'):
             m = by_type.get(state['type'])
